@@ -41,6 +41,16 @@ def post(obs, tier, rep):
                 o["witness"] = dict(native=dict(history=f"{entry}; QR; global SR (serial stub); {entry}", max_relative_incoherence_at_propagate_entry=dev))
             except Exception as e:  # noqa
                 o["witness"] = dict(native_error=repr(e)[:200])
+        if o["status"] == "refuted" and o["kind"] != "canary" and ".eq." in o["name"] and ".prelude." in o["name"]:
+            entry = o["name"].split(".")[2]
+            if entry in ("propagate_phaseless_ad", "propagate_phaseless_ad_nosr"):
+                try:
+                    dev, rec = native.prelude_rotation_deviation(entry)
+                    o["replayed"] = bool(dev > 1e-9)
+                    o["witness"] = dict(model=o.get("witness"), native=dict(check="energy of the entry point vs its non-rotating twin with the prelude done by hand in the stated order "
+                                                                            "(h1 += coupling*op; optimize; intermediates from the optimised orbitals)", **rec))
+                except Exception as e:  # noqa
+                    o["witness"] = dict(model=o.get("witness"), native_error=repr(e)[:200])
         if o["status"] == "refuted" and o["kind"] != "canary" and ".est.block." in o["name"]:
             try:
                 dev = native.block_estimator_deviation()
